@@ -29,6 +29,10 @@ var debug = os.Getenv("VERIF_C07_DEBUG") != ""
 // ----------------------------------------------------------------------------- markers
 
 var markerIdent = regexp.MustCompile(`^mk\d+_\d+(é|𝒳)?$`)
+
+// renamedIdent is what the generator's own compilation step turns a marker identifier into when it plays a renaming
+// compiler (mk5_0 -> r5_0): still the same marker, but the name `names` must record for it is the original one.
+var renamedIdent = regexp.MustCompile(`^r(\d+_\d+(é|𝒳)?)$`)
 var markerLit = regexp.MustCompile(`^[st]\d+_\d+`)
 var markerNum = regexp.MustCompile(`^9\d{4}\d+$`)
 
@@ -53,12 +57,27 @@ func markerKey(t jsref.Token) (string, bool) {
 		if markerIdent.MatchString(t.Ident) {
 			return "I:" + t.Ident, true
 		}
+		if m := renamedIdent.FindStringSubmatch(t.Ident); m != nil {
+			return "I:mk" + m[1], true
+		}
 	case jsref.TPrivateName:
 		if markerIdent.MatchString(t.Ident) {
 			return "I:#" + t.Ident, true
 		}
+		if m := renamedIdent.FindStringSubmatch(t.Ident); m != nil {
+			return "I:#mk" + m[1], true
+		}
 	}
 	return "", false
+}
+
+// nameKey is the marker key of an identifier as `names` spells it (mk5_0, #mk5_0, or the intermediate r5_0 / #r5_0).
+func nameKey(name string) string {
+	n := strings.TrimPrefix(name, "#")
+	if m := renamedIdent.FindStringSubmatch(n); m != nil {
+		n = "mk" + m[1]
+	}
+	return "I:" + name[:len(name)-len(strings.TrimPrefix(name, "#"))] + n
 }
 
 func isIdentLike(t jsref.Token) bool { return t.Kind == jsref.TIdent || t.Kind == jsref.TPrivateName }
@@ -215,7 +234,7 @@ func lineLen16(text string, starts []int, l int) int {
 // validateInputMaps checks (independently of esbuild) that a pre-step case is what it claims to be: every marker token of
 // every generated file G has a segment of G's own map exactly at its start, and that segment names the start of the
 // same marker in an original. Anything else is a defect of the case, not of esbuild.
-func validateInputMaps(c Case, origs map[string]*origFile) (string, string) {
+func validateInputMaps(c Case, origs map[string]*origFile, origKeys map[string]bool) (string, string) {
 	for name, code := range c.Files {
 		var raw []byte
 		mapDir := ""
@@ -239,8 +258,12 @@ func validateInputMaps(c Case, origs map[string]*origFile) (string, string) {
 			return "input-map-unreadable", name + ": " + err.Error()
 		}
 		at := map[pos]flatSeg{}
+		ofLine := map[int][]flatSeg{}
 		for _, s := range segs {
-			at[pos{s.genLine, s.genCol}] = s
+			if s.hasSource {
+				at[pos{s.genLine, s.genCol}] = s
+			}
+			ofLine[s.genLine] = append(ofLine[s.genLine], s)
 		}
 		toks, err := jsref.Tokenize(code, jsref.Options{Module: true})
 		if err != nil {
@@ -249,6 +272,20 @@ func validateInputMaps(c Case, origs map[string]*origFile) (string, string) {
 		for _, t := range toks {
 			k, ok := markerKey(t)
 			if !ok {
+				continue
+			}
+			if !origKeys[k] {
+				// a marker without origin (code the earlier step added): the input map must leave it unmapped, i.e. the
+				// segment that governs it on its line, if any, has no source
+				var g *flatSeg
+				for i, s := range ofLine[t.Line] {
+					if s.genCol <= t.Col16 {
+						g = &ofLine[t.Line][i]
+					}
+				}
+				if g != nil && g.hasSource {
+					return "unmapped-marker-is-mapped", name + " " + k
+				}
 				continue
 			}
 			s, ok := at[pos{t.Line, t.Col16}]
@@ -278,6 +315,7 @@ func validateInputMaps(c Case, origs map[string]*origFile) (string, string) {
 type stats struct {
 	verified, nonASCIIBefore, astralBefore, joined, genNonASCIIBefore, genAstralBefore, afterOddTerminator int
 	kinds                                                                                                  map[string]int
+	known                                                                                                  *vdrv.Verdict // first failure that matches the signature of a listed finding
 	namesChecked, inlinedConst, urlComments, segments, covered                                             int
 }
 
@@ -295,9 +333,17 @@ func judge(c Case) vdrv.Verdict {
 		}
 		origs[k] = of
 	}
+	origKeys := map[string]bool{}
+	for _, of := range origs {
+		for _, t := range of.tokAt {
+			if k, ok := markerKey(t); ok {
+				origKeys[k] = true
+			}
+		}
+	}
 	inputs := c.Files
 	if c.Originals != nil {
-		if why, detail := validateInputMaps(c, origs); why != "" {
+		if why, detail := validateInputMaps(c, origs, origKeys); why != "" {
 			if os.Getenv("VERIF_C07_DEBUG") != "" {
 				fmt.Println("C07-DEBUG bad-case", why, detail)
 			}
@@ -352,9 +398,12 @@ func judge(c Case) vdrv.Verdict {
 		return vdrv.Fail("no JavaScript output", "an output file", "")
 	}
 	for _, jsPath := range jsFiles {
-		if v := judgeOutput(c, root, jsPath, outs, originals, origs, st); v != nil {
+		if v := judgeOutput(c, root, jsPath, outs, origKeys, origs, st); v != nil {
 			return *v
 		}
+	}
+	if st.known != nil {
+		return *st.known // nothing else is wrong with the case
 	}
 	cls := []string{"map=" + c.SourceMap, "minify=" + c.Minify, "charset=" + c.Charset, "format=" + c.Format}
 	flag := func(b bool, l string) {
@@ -391,6 +440,18 @@ func judge(c Case) vdrv.Verdict {
 		flag(sibling, "own-step:sibling-map")
 		flag(sections, "own-step:index-map")
 		flag(len(c.Originals) > len(c.Files), "own-step:two-originals-in-one-file")
+		renamedAny, bom := false, false
+		for _, code := range c.Files {
+			renamedAny = renamedAny || regexp.MustCompile(`[^\w]r\d+_\d+`).MatchString(code)
+			bom = bom || strings.HasPrefix(code, "\ufeff")
+		}
+		flag(renamedAny, "own-step:renaming")
+		unmappedCode := false
+		for _, code := range c.Files {
+			unmappedCode = unmappedCode || regexp.MustCompile(`9\d{4}2\d\b`).MatchString(code)
+		}
+		flag(unmappedCode, "own-step:unmapped-code")
+		flag(bom, "own-step:bom")
 	}
 	all := ""
 	for _, t := range originals {
@@ -433,7 +494,7 @@ func skip(reason string) *vdrv.Verdict {
 }
 
 // judgeOutput checks one emitted JavaScript file and its map(s). nil = nothing wrong.
-func judgeOutput(c Case, root, jsPath string, outs map[string]string, originals map[string]string, origs map[string]*origFile, st *stats) *vdrv.Verdict {
+func judgeOutput(c Case, root, jsPath string, outs map[string]string, origKeys map[string]bool, origs map[string]*origFile, st *stats) *vdrv.Verdict {
 	code := outs[jsPath]
 	base := path.Base(jsPath)
 	isModule := c.Format == "esm" || c.Splitting || c.Format == "" && !c.Bundle
@@ -562,7 +623,7 @@ func judgeOutput(c Case, root, jsPath string, outs map[string]string, originals 
 			if !isMarker {
 				// an identifier that lost its name: `names` holds the original. Anything else (punctuation, helpers,
 				// invented identifiers) is not judged.
-				if !isIdentLike(t) || !seg.HasName || !markerIdent.MatchString(strings.TrimPrefix(name, "#")) {
+				if n := strings.TrimPrefix(name, "#"); !isIdentLike(t) || !seg.HasName || !(markerIdent.MatchString(n) || renamedIdent.MatchString(n)) {
 					continue
 				}
 				renamed = true
@@ -573,6 +634,16 @@ func judgeOutput(c Case, root, jsPath string, outs map[string]string, originals 
 			there := ""
 			if off := smref.Offset(of.text, of.starts, seg.OrigLine, seg.OrigCol); off >= 0 {
 				there = clip(of.text[off:], 40)
+			}
+			// C07-unmapped-input-segment-ignored: the token is code that the input map of an own-step case explicitly leaves
+			// unmapped (its marker exists in no original), yet it was given an origin
+			noOrigin := c.Originals != nil && (isMarker && !origKeys[key] || renamed && !origKeys[nameKey(name)])
+			if noOrigin {
+				if st.known == nil {
+					st.known = fail(where+", but the input source map of the file it comes from marks this code as unmapped (one-field segment)", "no original position", there)
+					st.known.Known = "C07-unmapped-input-segment-ignored"
+				}
+				continue
 			}
 			if !found {
 				return fail(where+", where no token starts", "the start of the original token", there)
@@ -631,8 +702,8 @@ func judgeOutput(c Case, root, jsPath string, outs map[string]string, originals 
 		}
 		for _, t := range prog.Tokens {
 			key, ok := markerKey(t)
-			if !ok || key[0] != 'L' {
-				continue
+			if !ok || key[0] != 'L' || !origKeys[key] {
+				continue // (markers without origin come from code an input map leaves unmapped)
 			}
 			line := segsOfLine[t.Line]
 			i := sort.Search(len(line), func(i int) bool { return line[i].GenCol > t.Col16 }) - 1
